@@ -2,7 +2,7 @@
 # MANIFEST.setup_cmd: builds the framework from files on disk only (offline).
 set -e
 export GOFLAGS=-mod=mod GOPROXY=off GOSUMDB=off GOTOOLCHAIN=local CGO_ENABLED=0
-V=/verif
+V=${VERIF_ROOT:-/verif}
 mkdir -p $V/build $V/work $V/replay $V/evidence
 ( cd $V/tools/gotrans && go build -o $V/build/gotrans . )
 mkdir -p $V/coq/theories/Gen
